@@ -62,6 +62,7 @@ func c20(c *Ctx) {
 	checksumOddOctetHigh(c, "checksum-odd-octet-high", "A probe of odd length with a non-zero last octet (ping -s 57) fails verification and is dropped before its knock is queued.")
 	// a probe is ours to report when it is addressed to any address of any interface we listen on: the address list is complete
 	c20DecoderByDestination(c)
+	eolEndsOptionParsing(c, "eol-ends-option-parsing", "the SYN is dropped before its knock is queued, and the probed port is missing from the report")
 	accumulatorSurvivesOuterLoop(c, "address-list-complete", "a probe to an address of any interface but the last is not recognised as addressed to this host and its knock is never queued", canaryRel)
 }
 
